@@ -71,7 +71,7 @@ def selector(draw, g):
         # a pattern with a string literal (blanks inside it are part of the value: 'a  b' is not 'a b')
         p3, lex = draw(st.sampled_from(lit_objs))
         pats.append(["?v", p3, '"%s"' % lex])
-    return {"kind": "sparql", "distinct": draw(st.booleans()), "patterns": pats}
+    return {"kind": "sparql", "distinct": draw(st.booleans()), "patterns": pats, "layout": draw(st.sampled_from([0, 0, 0, 1, 2, 3, 4, 5, 6]))}
 
 
 @st.composite
@@ -240,7 +240,7 @@ def check(case, own=None):
             nm = it["label"]["name"]
             label_of[key] = nm if it["label"]["form"] == "class" else \
                 LABEL_NS + nm if it["label"]["form"] == "full" else (refmodel.SHAPES_NS + nm, "http://ex.org/" + nm)
-            text = selectors.render(it["sel"], NSD, it["styles"])
+            text = selectors.render(it["sel"], NSD, it["styles"], multiline_ok=case["syntax"] == "json")
             labels.add("sel:" + it["sel"]["kind"])
             if "_" in (it["sel"].get("other"),) or ":" in text.split("{")[-1].split("<")[0] or it["sel"]["kind"] == "sparql":
                 nt = True
